@@ -9,13 +9,19 @@ impl-model of run(); container.batch_size is compared with batch_size_rule; .res
 distinguisher of the same class updated ONCE with the whole set by the real code, and .scores with the discriminant of
 .results computed in Coq.
 """
+import os
 import warnings
 
-import numpy as np
+# The numba kernels of the partitioned / MIA distinguishers are parallel=True: on the tiny sets used here 16 worker threads
+# only contend (0.02 s -> 1 s per run() on a loaded machine).  One thread, unless the caller decided otherwise.  (Thread-count
+# independence of the results is property C11; the inputs here are exactly summable.)
+os.environ.setdefault('NUMBA_NUM_THREADS', '1')
 
-from lib.kinds import Kind
-from lib import core
-from translate import common as C
+import numpy as np  # noqa: E402
+
+from lib.kinds import Kind  # noqa: E402
+from lib import core  # noqa: E402
+from translate import common as C  # noqa: E402
 
 ID = 'C02'
 TRANSLATORS = []
@@ -60,6 +66,11 @@ def patch_lut_cache():
     from scared.distinguishers import partitioned as P
     if _patched.get('done') is P:
         return
+    try:        # also when NUMBA_NUM_THREADS was exported by the caller: mask the pool down to one worker
+        import numba
+        numba.set_num_threads(1)
+    except Exception:
+        pass
     real = P._define_lut_func
     cache = {}
 
